@@ -119,6 +119,14 @@ pub(crate) fn vertex_element_parser(count: u16) -> BinResult<Vec<VertexDeclarati
         let mut element = VertexElement::read_options(reader, endian, ())?;
 
         loop {
+            // the slots of a declaration, terminator included
+            if declaration.elements.len() + 1 >= NUM_VERTICES as usize {
+                return Err(binrw::Error::AssertFail {
+                    pos: reader.stream_position()?,
+                    message: "vertex declaration without terminator".to_string(),
+                });
+            }
+
             declaration.elements.push(element);
 
             element = VertexElement::read_options(reader, endian, ())?;
